@@ -242,19 +242,19 @@ def gsteps (s : Srv) (g : G) : Nat → Srv × G
   | n + 1 => let r := gstep s g none; gsteps r.1 r.2 n
 
 /-- if the key holds the placeholder of a client whose liveness key is gone, a Get of any client
-run on its own (five round trips: read, check holder, delkey, read, lock) removes the
+run on its own (seven steps: register, read, check holder, delkey, register, read, lock) removes the
 placeholder, takes the lock and runs its loader -/
 theorem dead_holder_released (s : Srv) (c d : Nat) (hk : s.key = some (.ph c)) (hdead : c ∉ s.alive) :
-    (gsteps s { id := d } 5).2.pc = .loading ∧ (gsteps s { id := d } 5).1.key = some (.ph d) ∧
-      (gsteps s { id := d } 5).1.loads = s.loads + 1 := by
+    (gsteps s { id := d } 7).2.pc = .loading ∧ (gsteps s { id := d } 7).1.key = some (.ph d) ∧
+      (gsteps s { id := d } 7).1.loads = s.loads + 1 := by
   simp [gsteps, gstep, gstepLive, hk, hdead, delkey, acquire]
 
 /-! ### 5. script facts and non-vacuity -/
 theorem acquire_iff_absent (id : Nat) (k : Option Val) : (acquire id k).2 = none ↔ k = none := by
   cases k <;> simp [acquire]
 
-example : (run {} [.newGet 1, .step 0 none, .step 0 none, .step 0 (some (.value "v")), .step 0 none]).srv.key
+example : (run {} [.newGet 1, .step 0 none, .step 0 none, .step 0 none, .step 0 (some (.value "v")), .step 0 none]).srv.key
     = some (.value "v") := by decide
-example : touches (run {} [.newGet 1, .step 0 none, .step 0 none, .newGet 2]) 1 (.step 1 none) = false := by decide
+example : touches (run {} [.newGet 1, .step 0 none, .step 0 none, .step 0 none, .newGet 2]) 1 (.step 1 none) = false := by decide
 
 end Rv.C39
